@@ -482,6 +482,37 @@ let () =
                   (decimal_of_n m.add_length) (decimal_of_n m.copy_end)) ms)))
             | Underflow -> print_endline "bsdiff=underflow"
             | OutOfFuel -> print_endline "bsdiff=outoffuel")
+       | ["json"; name; tree] ->
+           (* what the model reads from a response body whose JSON tree is [tree] (prefix encoding, tools/jsongen.py) *)
+           let toks = ref (split ',' tree) in
+           let next () = match !toks with t :: r -> toks := r; t | [] -> failwith "json: short" in
+           let tl t = Stdlib.String.sub t 1 (Stdlib.String.length t - 1) in
+           let rec node () : json =
+             let t = next () in
+             match t.[0] with
+             | 'n' -> JNull | 't' -> JBool true | 'f' -> JBool false
+             | 'i' -> JNum (JInt (false, n_of_decimal (tl t)))
+             | 'm' -> JNum (JInt (true, n_of_decimal (tl t)))
+             | 'd' -> JNum JFloat
+             | 's' -> JStr (cstring_of (str_tok (if tl t = "" then "e" else tl t)))
+             | 'a' -> let k = int_of_string (tl t) in JArr (List.init k (fun _ -> node ()))
+             | 'o' -> let k = int_of_string (tl t) in
+                 JObj (List.init k (fun _ ->
+                     let kt = next () in
+                     let key = cstring_of (str_tok (if tl kt = "" then "e" else tl kt)) in
+                     let v = node () in (key, v)))
+             | _ -> failwith ("json: bad token " ^ t) in
+           let j = node () in
+           (match resp_of_json j with
+            | None -> Printf.printf "json:%s=err\n" name
+            | Some r ->
+                let p = (match r.r_patch with
+                    | None -> "-"
+                    | Some p -> Printf.sprintf "%s:%s:%s:%s" (decimal_of_n p.p_num) (hx p.p_hash) (hx p.p_url) (ohx p.p_sig)) in
+                let rb = (match r.r_rb with
+                    | None -> "-" | Some [] -> "e"
+                    | Some l -> Stdlib.String.concat ";" (List.map decimal_of_n l)) in
+                Printf.printf "json:%s=a=%s p=%s rb=%s\n" name (if r.r_avail then "t" else "f") p rb)
        | ["sdiff"; o; nw; ms] ->
            let p = simple_diff (bytes_of_ostring (blob_tok o)) (bytes_of_ostring (blob_tok nw)) (parse_matches ms) in
            let s = ostring_of_bytes p in
